@@ -588,7 +588,12 @@ Inductive fexpr :=
 Definition First (x : string) : fexpr := Idx x 0.
 
 Inductive kind := KReturn | KCtor | KAssign | KGuard.
-Record site := mkSite { s_key : string; s_kind : kind; s_dims : list (option nat); s_rule : fexpr }.
+(** s_operands: the secret operands of the function whose shares flow into the result (the
+    parameters passed to `gather`), except those whose integrality is enforced by a guard in every
+    caller;  s_late: operands that are modified (mixing in another parameter) AFTER the flag
+    expression was evaluated and before their shares are gathered. *)
+Record site := mkSite { s_key : string; s_kind : kind; s_dims : list (option nat); s_rule : fexpr;
+                        s_operands : list string; s_late : list string }.
 
 Fixpoint no_other (e : fexpr) : bool :=
   match e with
@@ -634,8 +639,33 @@ Definition covers_all_elements (s : site) : bool :=
   forallb (covered (s_dims s) (s_rule s)) (idx_names (s_rule s)).
 Definition is_setting_site (s : site) : bool :=
   match s_kind s with KGuard => false | _ => true end.
-Definition failing_sites (rules : list site) : list string :=
-  map s_key (filter (fun s => negb (covers_all_elements s)) (filter is_setting_site rules)).
+(** does the rule read any flag at all? (rules that are public/type-level conditions only do not) *)
+Fixpoint reads_flags (e : fexpr) : bool :=
+  match e with
+  | Elem _ | Idx _ _ | AllOf _ | Other _ => true
+  | Not a => reads_flags a
+  | And a b | Or a b | Alt a b => reads_flags a || reads_flags b
+  | _ => false
+  end.
+Fixpoint mentions (x : string) (e : fexpr) : bool :=
+  match e with
+  | Elem y | AllOf y => String.eqb x y
+  | Idx y _ => String.eqb x y
+  | Not a => mentions x a
+  | And a b | Or a b | Alt a b => mentions x a || mentions x b
+  | _ => false
+  end.
+(** a rule that derives the mark from operand flags consults EVERY secret operand of the result *)
+Definition covers_operands (s : site) : bool :=
+  negb (reads_flags (s_rule s)) || forallb (fun x => mentions x (s_rule s)) (s_operands s).
+(** the flag is computed from the operands as they are when their shares are taken *)
+Definition no_late_modification (s : site) : bool :=
+  match s_late s with [] => true | _ => false end.
+Definition site_ok (s : site) : bool :=
+  covers_all_elements s && covers_operands s && no_late_modification s.
+Definition failing_by (chk : site -> bool) (rules : list site) : list string :=
+  map s_key (filter (fun s => negb (chk s)) (filter is_setting_site rules)).
+Definition failing_sites (rules : list site) : list string := failing_by site_ok rules.
 Definition other_sites (rules : list site) : list string :=
   map s_key (filter (fun s => negb (no_other (s_rule s))) rules).
 
